@@ -724,12 +724,28 @@ impl<'a> Visitor<'a, Split> for SplitVisitor {
             .iter()
             .map(|m| m.named_exprs()[0].clone())
             .collect();
+        let aggregated: Vec<bool> = arguments.iter().map(|m| m.reduce().is_some()).collect();
         let Map {
             named_exprs: _,
             filter,
             order_by,
             reduce,
         } = Map::all(arguments);
+        // An argument without aggregate sits above the Reduce of its siblings: it has to read its columns through it
+        let (reduce, named_exprs) = named_exprs.into_iter().zip(aggregated).fold(
+            (reduce, vec![]),
+            |(reduce, mut named_exprs), ((name, expr), aggregated)| match reduce {
+                Some(r) if !aggregated => {
+                    let (r, expr) = r.and(expr);
+                    named_exprs.push((name, expr));
+                    (Some(Box::new(r)), named_exprs)
+                }
+                reduce => {
+                    named_exprs.push((name, expr));
+                    (reduce, named_exprs)
+                }
+            },
+        );
         Map::new(
             vec![(
                 self.0.clone(),
